@@ -1415,6 +1415,7 @@ struct ssl
     unsigned char largestRsn[6];                /* Needed for resends of CCS flight */
     unsigned char lastRsn[6];                   /* Last RSN received (for replay detection) */
     unsigned long dtlsBitmap;                   /* Record replay helper */
+    unsigned char windowEpoch[2];               /* Epoch that lastRsn and dtlsBitmap refer to */
     int32 parsedCCS;                            /* Set between CCS parse and FINISHED parse */
     int32 msn;                                  /* Current Message Sequence Number to send */
     int32 resendMsn;                            /* Starting MSN to use for resends */
